@@ -359,6 +359,9 @@ class SVG:
         self.elements = []
 
     def _clone(self) -> "SVG":
+        # pending shape edits live in self.elements; write them to the tree first
+        # or the copy silently loses them
+        self._update_etree()
         return SVG(svg_root=copy.deepcopy(self.svg_root))
 
     def _elements(self) -> List[Tuple[etree.Element, Tuple[SVGShape, ...]]]:
@@ -1031,7 +1034,7 @@ class SVG:
 
     def remove_processing_instructions(self, inplace=False):
         if not inplace:
-            svg = SVG(copy.deepcopy(self.svg_root))
+            svg = self._clone()
             svg.remove_processing_instructions(inplace=True)
             return svg
 
